@@ -90,6 +90,11 @@ class FieldArrayModel(FieldCompositeModel):
         FieldCompositeModel.pre_randomize(self, visited)
         
     def post_randomize(self, visited):
+        if self.is_rand_sz and (self.is_scalar or self.is_enum):
+            # Elements beyond the solved size are not part of the list
+            sz = int(self.size.get_val())
+            if sz < len(self.field_l):
+                del self.field_l[sz:]
         FieldCompositeModel.post_randomize(self, visited)
         self.sum_expr = None
         self.sum_expr_btor = None
